@@ -1082,7 +1082,7 @@ int main(int argc, char **argv) {
     return 0;
   }
   if (o.runs < 0)
-    o.runs = (o.tier == "thorough") ? 400000 : 30000;
+    o.runs = (o.tier == "thorough") ? 400000 : 100000;
   if (o.max_seconds < 0)
     o.max_seconds = (o.tier == "thorough") ? 1200 : 60;
   return property_main(o);
